@@ -41,7 +41,7 @@ pub fn conservation(case: &Case, h: &Hist) -> Vec<Violation> {
             .filter(|(seq, n, p, _)| {
                 *seq >= s.begin
                     && s.end.map(|e| *seq < e).unwrap_or(true)
-                    && matches!(s.actor, Actor::Node(a) if s.port < 1000 && port_root(case, a as usize, s.port as usize) == port_root(case, *n as usize, *p as usize))
+                    && matches!(s.actor, Actor::Node(a) if same_port(case, a as usize, s.port, *n as usize, *p))
             })
             .filter(|(_, _, _, e)| e.accepts(s.salt))
             .map(|(_, _, _, e)| Delivery { target: e.target, via: e.via() })
@@ -469,6 +469,87 @@ pub fn drop_rules(case: &Case, out: &Outcome, h: &Hist) -> Vec<Violation> {
     }
     if !out.late_drops.is_empty() {
         v.push(Violation::keyed("c19_released_after_drop", key, format!("{} models / handler futures were released only after drop(Simulation) had returned", out.late_drops.len())));
+    }
+    v
+}
+
+/// Does the send port `sport` (0.. outputs, 1000.. requestors) of node `a` share its connection
+/// list with the port named by `Op::Connect { port: cport }` (0.. outputs, 100.. requestors) of node `n`?
+pub fn same_port(case: &Case, a: usize, sport: u16, n: usize, cport: u8) -> bool {
+    if sport < 1000 {
+        cport < 100 && port_root(case, a, sport as usize) == port_root(case, n, cport as usize)
+    } else if sport < 2000 {
+        cport >= 100 && req_root(case, a, (sport - 1000) as usize) == req_root(case, n, (cport - 100) as usize)
+    } else {
+        false
+    }
+}
+
+/// C14: a completed query yields exactly one reply per accepting connection, computed by that
+/// connection's replier from its mapped request, in connection order, and only after every such
+/// replier has finished.
+pub fn query_replies(case: &Case, h: &Hist) -> Vec<Violation> {
+    let mut v = Vec::new();
+    let extra = dynamic_connections(h);
+    for s in &h.sends {
+        let (true, Some(end)) = (s.query, s.end) else { continue };
+        // A query whose command failed may have been cut short.
+        if !matches!(h.cmd(s.cmd).and_then(|c| c.res.as_ref()), Some(Res::Ok)) {
+            continue;
+        }
+        let before: Vec<(u16, u8, Edge)> = extra.iter().filter(|(seq, ..)| *seq < s.begin).map(|(_, n, p, e)| (*n, *p, e.clone())).collect();
+        let racing: Vec<Edge> = extra
+            .iter()
+            .filter(|(seq, n, p, _)| *seq >= s.begin && *seq < end && matches!(s.actor, Actor::Node(a) if same_port(case, a as usize, s.port, *n as usize, *p)))
+            .map(|(_, _, _, e)| e.clone())
+            .collect();
+        let conns: Vec<Edge> = if (2000..3000).contains(&s.port) {
+            vec![Edge { cid: u32::MAX, target: Target::Node(s.port - 2000), map: false, filter: None }]
+        } else {
+            connections(case, s.actor, s.port, &before)
+        };
+        let expected: Vec<(u16, u64, u32, u32)> = conns
+            .iter()
+            .filter(|e| e.accepts(s.salt))
+            .filter_map(|e| match e.target {
+                Target::Node(t) => Some((t, s.msg, e.via(), e.via())),
+                _ => None,
+            })
+            .collect();
+        // Connections added while the query was in flight may or may not take part (at the end).
+        let mut got = s.replies.clone();
+        if got.len() > expected.len() && !racing.is_empty() {
+            let tail: Vec<_> = got[expected.len()..].to_vec();
+            let ok = tail.iter().all(|r| racing.iter().any(|e| matches!(e.target, Target::Node(t) if t == r.0) && e.via() == r.2 && e.via() == r.3 && r.1 == s.msg));
+            if ok {
+                got.truncate(expected.len());
+            }
+        }
+        if got != expected {
+            let how = if got.len() < expected.len() {
+                "missing"
+            } else if got.len() > expected.len() {
+                "extra"
+            } else {
+                let mut a = got.clone();
+                let mut b = expected.clone();
+                a.sort();
+                b.sort();
+                if a == b { "order" } else { "mismatch" }
+            };
+            v.push(Violation::keyed(
+                "c14_replies",
+                how,
+                format!("query {} by {:?} on port {} (salt {}) returned replies (replier, request, via seen by replier, reply map) {:?}; its connections call for {:?}", s.msg, s.actor, s.port, s.salt, got, expected),
+            ));
+        }
+        // Returned only after every accepting replier finished handling the request.
+        for (t, msg, via, _) in &expected {
+            let done = h.handlers.iter().any(|x| x.node == *t && x.msg == *msg && x.query && x.via == *via && x.end.map(|e| e < end).unwrap_or(false));
+            if !done {
+                v.push(Violation::new("c14_returned_early", format!("query {} by {:?} on port {} completed at seq {} before the replier on node {} (via {}) had finished handling it", s.msg, s.actor, s.port, end, t, via)));
+            }
+        }
     }
     v
 }
